@@ -181,7 +181,22 @@ func (e *env) runSeq(id, tier string, nops int) {
 		used = append(used, k)
 		return k
 	}
+	type heldVal struct {
+		key       string
+		got, copy []byte
+	}
+	var held []heldVal
 	for i := 0; i < nops; i++ {
+		for j := 0; j < len(held); j++ {
+			if !bytes.Equal(held[j].got, held[j].copy) {
+				e.emit("S\tHELD\tchanged\t%s", hx(held[j].key))
+				held = append(held[:j], held[j+1:]...)
+				j--
+			}
+		}
+		if len(held) > 8 {
+			held = held[1:]
+		}
 		switch e.r.Intn(12) {
 		case 0, 1, 2, 3:
 			k, v := pickKey(), e.genVal(tier)
@@ -196,9 +211,14 @@ func (e *env) runSeq(id, tier string, nops int) {
 			k := pickKey()
 			v, err := e.conn.Get(k)
 			e.emit("S\tGET\t%s\t%s\t%s", hx(k), cls(err), valRepr(v))
-			// mutating the returned buffer must not affect later reads
-			for j := range v {
-				v[j] ^= 0xff
+			if e.r.Intn(2) == 0 && len(v) > 0 {
+				// the caller keeps this result: whatever the backend does later must leave it alone
+				held = append(held, heldVal{k, v, append([]byte(nil), v...)})
+			} else {
+				// mutating the returned buffer must not affect later reads
+				for j := range v {
+					v[j] ^= 0xff
+				}
 			}
 		case 7, 8:
 			k := pickKey()
